@@ -173,7 +173,7 @@ def calls_of(hist):
 
 def signature(m, known):
     if known:
-        return "%s view=%s" % (KNOWN_SIG, m["view"])
+        return KNOWN_SIG
     direction = "over-permit" if m["got"].startswith("allow") else "under-permit"
     return "C18 %s after %s view=%s nobj=%d" % (direction, m["call"].split("(")[0], m["view"], len(m.get("objs") or []))
 
@@ -213,7 +213,7 @@ def run(ctx):
         kw = dict(subjects=1, roles=2, pending=2, req=REQ6)
         err = True
     # repaired designs: everything must hold (proves there is no window besides the named one)
-    for m in ("cascade", "refuse"):
+    for m in (("cascade", "refuse") if thorough else ("cascade",)):
         r = mc("mc_" + m, mc_cfg(pdm, m, err, True, **kw), pdm)
         if r.violated:
             raise vlib.Inconclusive("design spec: %s violated in mode %s (spec defect)" % (r.violated, m))
@@ -237,12 +237,12 @@ def run(ctx):
     if not thorough:
         plans.append(("bfs", pd0, False, 4, None, None))
         plans.append(("bfs_err", pd1, True, 3, None, None))
-        plans.append(("sim", pd1, True, 9, "num=1500", None))
+        plans.append(("sim", pd1, False, 9, "num=40", None))
     else:
         plans.append(("bfs", pd0, False, 5, None, None))
         plans.append(("bfs_err", pd1, True, 4, None, None))
-        for k in range(2, 4):
-            plans.append(("sim%d" % k, POLDEFS[(ctx.seed + k) % len(POLDEFS)], True, 12, "num=4000", REQ8))
+        plans.append(("sim2", POLDEFS[(ctx.seed + 2) % len(POLDEFS)], False, 12, "num=300", REQ8))
+        plans.append(("sim3", POLDEFS[(ctx.seed + 3) % len(POLDEFS)], True, 12, "num=300", REQ8))
     total = 0
     samples = []
     bad_rows = []
@@ -258,7 +258,9 @@ def run(ctx):
         if r.violated:
             raise vlib.Inconclusive("generator spec violated %s" % r.violated)
         hp = ctx.path(tag + ".ndjson")
-        n, smp, nprefix = write_hists(r, hp)
+        # -simulate: num is per worker, and TLC evaluates the Emit invariant on every successor
+        # of the last step, so one trace yields ~20 sibling histories sharing a prefix
+        n, smp, nprefix = write_hists(r, hp, limit=80000)
         if n == 0:
             raise vlib.Inconclusive("no histories generated (%s)" % tag)
         with open(hp) as f:
@@ -279,28 +281,41 @@ def run(ctx):
         bad_rows += [(hp, b) for b in bad]
 
     # 3. verdicts. Each distinct signature is reproduced once from scratch.
-    drift = [b for _, b in bad_rows if b["r"] == "drift"]
+    drift = [b for _, b in bad_rows if b.get("drift")]
     incon = [b for _, b in bad_rows if b["r"] == "inconclusive"]
     seen = set()
+    # report the simplest exemplar: the contradiction right after the delete_role call, shortest history
+    bad_rows.sort(key=lambda hb: (0 if (hb[1].get("dev") or {}).get("call", "").startswith("delete_role") else 1,
+                                  (hb[1].get("dev") or hb[1].get("bad") or {}).get("step", 0)))
+    nrepro = 0
     for hp, b in bad_rows:
         for field, known in (("bad", False), ("dev", True)):
             m = b.get(field)
             if not m:
                 continue
-            sig = signature(m, known)
-            if sig in seen:
+            # preliminary signature only limits the number of reproductions; the reported one is
+            # taken from the from-scratch reproduction (every step checked -> earliest step)
+            pre = signature(m, known)
+            if pre in seen or nrepro >= 12:
                 continue
-            seen.add(sig)
+            seen.add(pre)
+            nrepro += 1
             hist = line_of(hp, b["i"])
             one = ctx.path("one.ndjson")
             with open(one, "w") as f:
                 f.write(json.dumps(hist) + "\n")
             # same history index -> same concretisation map and shuffles
             summ, again, _ = replay_file(ctx, one, "repro", workers=1, idx0=b["i"])
+            if not [a for a in again if a.get("bad") or a.get("dev")]:
+                raise vlib.Inconclusive("mismatch did not reproduce: %s" % json.dumps(b))
             again = [a for a in again if a.get(field)]
             if not again:
-                raise vlib.Inconclusive("mismatch did not reproduce: %s" % json.dumps(b))
+                # the from-scratch run stopped earlier at the other kind of contradiction,
+                # which is reported through its own row
+                continue
             m2 = again[0][field]
+            sig = signature(m2, known)
+            hist = hist[:m2["step"] + 1]
             what = describe(m2) + "; history: " + " ; ".join(calls_of(hist))
             if known:
                 what += " [role.Writer.Delete removes only the role row: the ontology node and its " \
@@ -309,8 +324,8 @@ def run(ctx):
                                    "cmd": "python3 tools/verif.py replay C18 <this file>"})
     if incon and not ctx.violations:
         raise vlib.Inconclusive("harness inconclusive: %s" % json.dumps(incon[0]))
-    if drift and not ctx.violations and not ctx.known_hits:
-        raise vlib.Inconclusive("DRIFT (pinned beyond property): %s" % json.dumps(drift[0]))
+    if drift and not ctx.violations:
+        raise vlib.Inconclusive("DRIFT (pinned beyond property, spec needs an update): %s" % json.dumps(drift[0]))
     if drift:
         ctx.notes.append("drift rows: %d, first: %s" % (len(drift), json.dumps(drift[0])))
     # vacuity guards
